@@ -840,6 +840,10 @@ class RZILTransformer(Transformer):
             a = self.promotion_cast(a)
             b = self.promotion_cast(b)
             a, b = self.cast_operands(a=a, b=b, immutable_a=False)
+        elif a and b:
+            # C11 6.5.7: the integer promotions are performed on each operand;
+            # the type of the result is that of the promoted left operand.
+            a = self.promotion_cast(a)
         v = BitOp(name, a, b, op_type)
         return self.add_op(v)
 
